@@ -90,6 +90,21 @@ CprApply(K, Fpp, Scat, sapply(_), papply(_), f) ==
         xp == papply(rp)
     IN  [rs |-> rs, rp |-> rp, x |-> VAddR(x0, MV(Scat, xp))]
 
+\* ------------------------------------------------------------- cpr_drs weights
+\* (dynamic row sum variant, cpr_drs.hpp): weight 1 for the pressure row of a cell; a further row i keeps
+\* weight 1 unless its pressure-column diagonal entry a_dia (SIGNED) is smaller than eps_dd times the sum of the
+\* |pressure-column entries| of that row in the other cells, or the |entries| of the pressure row in column
+\* class i sum to less than eps_ps * |a_dia[0]|.  eps are given in units of 1/64.
+AbsI(x) == IF x < 0 THEN -x ELSE x
+SumAbsOver(K, row, cols) == FoldLeft(LAMBDA acc, c : acc + AbsI(At(K, row, c)), 0, SetToSortSeq(cols, <))
+DrsTop(K, B, act, ip, c) == SumAbsOver(K, ip * B, {x \in RowCols(K, ip * B) : x < Nact(K, act) /\ x % B = c})
+DrsDia(K, B, ip, i)      == At(K, ip * B + i, ip * B)
+DrsOff(K, B, act, ip, i) == SumAbsOver(K, ip * B + i, {x \in RowCols(K, ip * B + i) : x < Nact(K, act) /\ x % B = 0 /\ x \div B # ip})
+DrsWeight(K, B, act, ip, i, dd64, ps64) ==
+    IF i > 0 /\ (64 * DrsDia(K, B, ip, i) < dd64 * DrsOff(K, B, act, ip, i) \/
+                 64 * DrsTop(K, B, act, ip, i) < ps64 * AbsI(DrsDia(K, B, ip, 0)))
+    THEN 0 ELSE 1
+
 \* ------------------------------------------------------- block-valued input
 \* (the block matrix is the B x B blocking of K; stored blocks = block columns holding an entry)
 BlockOf(K, B, ib, jb) == [k \in 1..B |-> [c \in 1..B |-> R(At(K, ib * B + k - 1, jb * B + c - 1))]]
